@@ -73,6 +73,9 @@ pub struct B {
     pub allow_classes: Option<(Vec<(Idx, Vec<Idx>)>, bool)>,
     pub remove_classes: Option<Vec<(Idx, Vec<Idx>)>>,
     pub max_depth: Option<u32>,
+    /// order in which the builder methods are called (0 = declaration order)
+    #[serde(default)]
+    pub call_order: u8,
 }
 
 impl B {
@@ -102,44 +105,30 @@ fn behavior(o: bool) -> ListBehavior {
     }
 }
 
-/// Build the ruma configuration through the public builder.
+/// Build the ruma configuration through the public builder. The builder calls are independent of
+/// each other (each sets its own list), so they are issued in an order derived from
+/// `b.call_order` (0 = declaration order).
 pub fn to_config(b: &B) -> SanitizerConfig {
     let mut c = match b.mode {
         1 => SanitizerConfig::strict(),
         2 => SanitizerConfig::with_mode(HtmlSanitizerMode::Compat),
         _ => SanitizerConfig::new(),
     };
-    if b.remove_reply_fallback {
-        c = c.remove_reply_fallback();
+    let mut steps: Vec<u32> = (0..12).collect();
+    if b.call_order != 0 {
+        let k = b.call_order as u32;
+        steps.sort_by_key(|i| (i.wrapping_mul(2654435761).wrapping_add(k.wrapping_mul(40503))).rotate_left(k % 31) % 1009);
     }
-    if let Some((l, o)) = &b.allow_elements {
-        c = c.allow_elements(l.iter().map(|i| pool(ELEM_POOL, *i)), behavior(*o));
+    for i in steps {
+        c = apply_step(c, b, i);
     }
-    if let Some(l) = &b.remove_elements {
-        c = c.remove_elements(l.iter().map(|i| pool(ELEM_POOL, *i)));
-    }
-    if let Some(l) = &b.ignore_elements {
-        c = c.ignore_elements(l.iter().map(|i| pool(ELEM_POOL, *i)));
-    }
+    c
+}
+
+fn apply_step(mut c: SanitizerConfig, b: &B, step: u32) -> SanitizerConfig {
     fn props(l: &[(Idx, Vec<Idx>)], p: &'static [&'static str]) -> Vec<(&'static str, Vec<&'static str>)> {
         // later entries for the same parent replace earlier ones (they are collected into a map)
         l.iter().map(|(e, a)| (pool(ELEM_POOL, *e), a.iter().map(|i| pool(p, *i)).collect())).collect()
-    }
-    if let Some((l, o)) = &b.allow_attrs {
-        let v = props(l, ATTR_POOL);
-        c = c.allow_attributes(v.iter().map(|(e, a)| PropertiesNames { parent: e, properties: a }), behavior(*o));
-    }
-    if let Some(l) = &b.remove_attrs {
-        let v = props(l, ATTR_POOL);
-        c = c.remove_attributes(v.iter().map(|(e, a)| PropertiesNames { parent: e, properties: a }));
-    }
-    if let Some((l, o)) = &b.allow_classes {
-        let v = props(l, CLASS_POOL);
-        c = c.allow_classes(v.iter().map(|(e, a)| PropertiesNames { parent: e, properties: a }), behavior(*o));
-    }
-    if let Some(l) = &b.remove_classes {
-        let v = props(l, CLASS_POOL);
-        c = c.remove_classes(v.iter().map(|(e, a)| PropertiesNames { parent: e, properties: a }));
     }
     fn schemes(l: &[(Idx, Idx, Vec<Idx>)]) -> Vec<(&'static str, Vec<(&'static str, Vec<&'static str>)>)> {
         // group by element (last entry per (element, attribute) wins, as in a map)
@@ -149,18 +138,71 @@ pub fn to_config(b: &B) -> SanitizerConfig {
         }
         m.into_iter().map(|(e, am)| (e, am.into_iter().collect())).collect()
     }
-    if let Some((l, o)) = &b.allow_schemes {
-        let v = schemes(l);
-        let pn: Vec<(&'static str, Vec<PropertiesNames<'_>>)> = v.iter().map(|(e, am)| (*e, am.iter().map(|(a, s)| PropertiesNames { parent: a, properties: s }).collect())).collect();
-        c = c.allow_schemes(pn.iter().map(|(e, am)| ElementAttributesSchemes { element: e, attr_schemes: am }), behavior(*o));
-    }
-    if let Some(l) = &b.deny_schemes {
-        let v = schemes(l);
-        let pn: Vec<(&'static str, Vec<PropertiesNames<'_>>)> = v.iter().map(|(e, am)| (*e, am.iter().map(|(a, s)| PropertiesNames { parent: a, properties: s }).collect())).collect();
-        c = c.deny_schemes(pn.iter().map(|(e, am)| ElementAttributesSchemes { element: e, attr_schemes: am }));
-    }
-    if let Some(d) = b.max_depth {
-        c = c.max_depth(d);
+    match step {
+        0 => {
+            if b.remove_reply_fallback {
+                c = c.remove_reply_fallback();
+            }
+        }
+        1 => {
+            if let Some((l, o)) = &b.allow_elements {
+                c = c.allow_elements(l.iter().map(|i| pool(ELEM_POOL, *i)), behavior(*o));
+            }
+        }
+        2 => {
+            if let Some(l) = &b.remove_elements {
+                c = c.remove_elements(l.iter().map(|i| pool(ELEM_POOL, *i)));
+            }
+        }
+        3 => {
+            if let Some(l) = &b.ignore_elements {
+                c = c.ignore_elements(l.iter().map(|i| pool(ELEM_POOL, *i)));
+            }
+        }
+        4 => {
+            if let Some((l, o)) = &b.allow_attrs {
+                let v = props(l, ATTR_POOL);
+                c = c.allow_attributes(v.iter().map(|(e, a)| PropertiesNames { parent: e, properties: a }), behavior(*o));
+            }
+        }
+        5 => {
+            if let Some(l) = &b.remove_attrs {
+                let v = props(l, ATTR_POOL);
+                c = c.remove_attributes(v.iter().map(|(e, a)| PropertiesNames { parent: e, properties: a }));
+            }
+        }
+        6 => {
+            if let Some((l, o)) = &b.allow_classes {
+                let v = props(l, CLASS_POOL);
+                c = c.allow_classes(v.iter().map(|(e, a)| PropertiesNames { parent: e, properties: a }), behavior(*o));
+            }
+        }
+        7 => {
+            if let Some(l) = &b.remove_classes {
+                let v = props(l, CLASS_POOL);
+                c = c.remove_classes(v.iter().map(|(e, a)| PropertiesNames { parent: e, properties: a }));
+            }
+        }
+        8 => {
+            if let Some((l, o)) = &b.allow_schemes {
+                let v = schemes(l);
+                let pn: Vec<(&'static str, Vec<PropertiesNames<'_>>)> = v.iter().map(|(e, am)| (*e, am.iter().map(|(a, s)| PropertiesNames { parent: a, properties: s }).collect())).collect();
+                c = c.allow_schemes(pn.iter().map(|(e, am)| ElementAttributesSchemes { element: e, attr_schemes: am }), behavior(*o));
+            }
+        }
+        9 => {
+            if let Some(l) = &b.deny_schemes {
+                let v = schemes(l);
+                let pn: Vec<(&'static str, Vec<PropertiesNames<'_>>)> = v.iter().map(|(e, am)| (*e, am.iter().map(|(a, s)| PropertiesNames { parent: a, properties: s }).collect())).collect();
+                c = c.deny_schemes(pn.iter().map(|(e, am)| ElementAttributesSchemes { element: e, attr_schemes: am }));
+            }
+        }
+        10 => {
+            if let Some(d) = b.max_depth {
+                c = c.max_depth(d);
+            }
+        }
+        _ => {}
     }
     c
 }
@@ -508,7 +550,7 @@ pub fn builder_config() -> impl Strategy<Value = B> {
     let per_elem = || prop::collection::vec((any::<u16>(), prop::collection::vec(any::<u16>(), 0..4)), 0..4);
     let sch = || prop::collection::vec((any::<u16>(), prop_oneof![Just(0u16), Just(4200u16), any::<u16>()], prop::collection::vec(any::<u16>(), 0..4)), 0..3);
     (
-        (0u8..3, any::<bool>()),
+        (0u8..3, any::<bool>(), prop_oneof![1 => Just(0u8), 2 => any::<u8>()]),
         prop::option::weighted(0.4, (idxs(), any::<bool>())),
         prop::option::weighted(0.3, idxs()),
         prop::option::weighted(0.3, idxs()),
@@ -519,7 +561,7 @@ pub fn builder_config() -> impl Strategy<Value = B> {
         prop::option::weighted(0.3, (per_elem(), any::<bool>())),
         (prop::option::weighted(0.2, per_elem()), prop::option::weighted(0.3, prop_oneof![0u32..6, 95u32..110])),
     )
-        .prop_map(|((mode, rr), ae, re, ie, aa, ra, asch, dsch, ac, (rc, md))| B {
+        .prop_map(|((mode, rr, call_order), ae, re, ie, aa, ra, asch, dsch, ac, (rc, md))| B {
             mode,
             remove_reply_fallback: rr,
             allow_elements: ae,
@@ -532,5 +574,6 @@ pub fn builder_config() -> impl Strategy<Value = B> {
             allow_classes: ac,
             remove_classes: rc,
             max_depth: md,
+            call_order,
         })
 }
